@@ -180,8 +180,16 @@ def handle (st : DriverState) (req : Sx) : DriverState × J :=
   | .list [.atom "parse", c, e, .str crate, .str fileName, .str path, f] =>
     (st, match decodeCtx c, decodeExt st.U st.snake e, Decode.file f with
       | some ctx, some ext, some file =>
-        jOutcome (fun o => match o with | some d => Encode.parsed d | none => .null)
+        let ans := jOutcome (fun o => match o with | some d => Encode.parsed d | none => .null)
           (Visitor.parseFile ext ctx pickSmallest crate fileName path file)
+        let amb := if ctx.multiFile && file.marker then
+            (match Visitor.visitFile ext ctx crate fileName path file with
+             | .ok d => Visitor.ambiguousImports d
+             | _ => [])
+          else []
+        (match ans, amb with
+         | .obj kvs, _ :: _ => .obj (kvs ++ [("ambiguous", J.ofStrs amb)])
+         | a, _ => a)
       | _, _, _ => bad "parse")
   | .list [.atom "generate", l, multi, .list tos, e, .list fs] =>
     (st, match decodeLang l, multi.asBool?, Decode.strs tos, decodeExt st.U st.snake e, fs.mapM decodeSource with
